@@ -142,6 +142,7 @@ class Request:
         self.worker = None
         self.ws = None
         self.snap_arrive = None     # server-side observation at arrival
+        self.snap_done = None       # ... and at completion
 
     def header(self, name, default=None):
         if not self.resp_headers:
@@ -441,6 +442,9 @@ class ServerWorld:
     def table(self):
         return list(self.server.sockets.keys())
 
+    def _snap_all(self):
+        return {sid: self.peek(sid) for sid in list(self.server.sockets)}
+
     # -- client facing -----------------------------------------------------------
     def http(self, cidx, method, query, headers=None, body=b'', cb=None,
              path='/engine.io/', declared=None, scheme='http', tag=None,
@@ -466,6 +470,7 @@ class ServerWorld:
             return
         req.seq_arrive = self.k.ev('http.arrive', rid=req.rid)
         req.t_arrive = self.k.now
+        req.snap_arrive = self._snap_all()
         self._start_http(req)
 
     def _finish_http(self, req):
@@ -476,6 +481,7 @@ class ServerWorld:
         req.seq_done = self.k.ev('http.done', rid=req.rid, st=req.status,
                                  esc=req.escaped)
         req.t_done = self.k.now
+        req.snap_done = self._snap_all()
         if req.lose_resp:
             req.lost = 'resp'
             self.fault('resp_lost')
@@ -518,6 +524,7 @@ class ServerWorld:
             return
         req.seq_arrive = self.k.ev('ws.arrive', rid=req.rid)
         req.t_arrive = self.k.now
+        req.snap_arrive = self._snap_all()
         self._start_ws(req)
 
     def _ws_http_answer(self, req):
@@ -987,6 +994,7 @@ class AsyncServerWorld(ServerWorld):
             'client': ('10.0.0.%d' % ((req.cidx or 0) % 250 + 1), 40000),
             'server': ('sim', 80),
             'dsim.cidx': req.cidx,
+            'dsim.rid': req.rid,
         }
         if typ == 'http':
             scope['method'] = req.method
